@@ -37,9 +37,10 @@ func envelopeSignature(b []byte) []byte {
 }
 
 type run struct {
-	c      *vlib.Ctx
-	failed map[string]int
-	seen   map[string]bool // Coq case terms already emitted
+	c        *vlib.Ctx
+	failed   map[string]int
+	seen     map[string]bool // Coq case terms already emitted
+	wireTick int
 }
 
 // ---------------------------------------------------------------------------
@@ -231,6 +232,12 @@ func (r *run) check(sc *scenario, emit bool) string {
 			return "verification succeeded (signer " + fmt.Sprint(obs.Signer) + "), the property demands rejection: " + whyFail(sc)
 		}
 	}
+	// over the wire, through the composed model
+	if emit && r.wireWanted(sc) {
+		if msg := r.wireCheck(sc, b.ad, obs); msg != "" {
+			return msg
+		}
+	}
 	// the verdict survives both serialisations
 	if sc.Mut.Kind != "nil-entries" && sc.Mut.Kind != "ep-sig-as-ad-sig" && (sc.Mut.Kind != "env-byte" || sc.Mut.Index%8 == 0) {
 		for _, codec := range []string{"dag-json", "dag-cbor"} {
@@ -248,6 +255,22 @@ func (r *run) check(sc *scenario, emit bool) string {
 		}
 	}
 	return ""
+}
+
+// wireWanted: which scenarios also go over the wire (all of the shape / key-assignment
+// families, a sample of the rest)
+func (r *run) wireWanted(sc *scenario) bool {
+	switch sc.Mut.Kind {
+	case "nil-entries", "ep-sig-as-ad-sig":
+		return false
+	case "":
+		return true
+	case "env-byte":
+		r.wireTick++
+		return r.wireTick%r.c.Pick(60, 10) == 0
+	}
+	r.wireTick++
+	return r.wireTick%r.c.Pick(10, 2) == 0
 }
 
 func whyFail(sc *scenario) string {
@@ -499,6 +522,7 @@ func main() {
 	defer c.Finish()
 	c.Family("verify", caseHeader, "fun c => andb pk_selftest (verify_case_ok c)", c.Pick(250, 400))
 	c.Family("sign", caseHeader, "fun c => andb pk_selftest (sign_case_ok c)", 200)
+	c.Family("wire", wireHeader, "fun c => andb pk_selftest (wire_case_ok c)", c.Pick(60, 100))
 	r := &run{c: c, failed: map[string]int{}, seen: map[string]bool{}}
 	// the pool is a function of the seed only (replays rebuild the same keys)
 	pool = keypool.New(vlib.NewRand(c.Seed).Fork("c05-pool"), 2)
